@@ -154,11 +154,11 @@ func c07R2(c *Ctx, r *Report) {
 	r.Describe(rule, "traversal completeness over the HIR universe: borrowChecker.checkNode/checkBlock/checkExpr and collectRefUsesNode/collectRefUsesExpr")
 	u := buildHIRUniverse(c, "internal/hir/gen")
 	type fam struct {
-		label   string
-		fns     []string
-		params  []string
-		msg     string
-		exempt  map[string]string
+		label  string
+		fns    []string
+		params []string
+		msg    string
+		exempt map[string]string
 	}
 	fams := []fam{
 		{"borrow checker walk", []string{borrowRecv + "checkNode", borrowRecv + "checkBlock", borrowRecv + "checkExpr"}, []string{"node", "block", "expr"},
@@ -332,7 +332,9 @@ func c07R3(c *Ctx, r *Report) {
 				}
 				hits := mustFlow(g, FlowSpec{
 					InitTrue: true,
-					Kill:     func(nd ast.Node) bool { return nodeCallsPred(nd, func(x *ast.CallExpr) bool { return x == call }) != nil },
+					Kill: func(nd ast.Node) bool {
+						return nodeCallsPred(nd, func(x *ast.CallExpr) bool { return x == call }) != nil
+					},
 					Gate:     func(nd ast.Node) bool { return nodeCalls(info, nd, releasers...) != nil },
 					AtReturn: true,
 				})
